@@ -31,3 +31,27 @@ Print Assumptions C04_histories_agree.
 Theorem C04_configuration_invariant : forall rm rn rr hcode h e, cfg (run rm rn rr hcode h e) = cfg e.
 Proof. exact cfg_invariant. Qed.
 Print Assumptions C04_configuration_invariant.
+
+(* ---- at CURSOR level (Model1/Iter.v, Proofs/IterRefine.v): for the modelled
+   query types the facts the theorem above relies on are themselves theorems ---- *)
+From XP.Model1 Require Import Iter.
+From XP.Proofs Require Import IterRefine.
+
+(* Clone drops every piece of iteration state, whatever state the query is in *)
+Theorem C04_clone_forgets : forall st, clone1 st = fresh (clone_cfg (config_of st)).
+Proof. exact clone_forgets. Qed.
+Print Assumptions C04_clone_forgets.
+
+(* a clone of a query in ANY state yields what a freshly built query yields *)
+Theorem C04_clone_same_results : forall D tst st c F n,
+  need D tst (config_of st) c <= F -> List.length (lsel D tst (config_of st) c) < n ->
+  drain_items D tst F n (clone1 st) c = drain_items D tst F n (fresh (config_of st)) c.
+Proof. exact clone_same_results. Qed.
+Print Assumptions C04_clone_same_results.
+
+(* Evaluate rewinds a query in ANY state (half-consumed, exhausted, ...) *)
+Theorem C04_evaluate_resets : forall D tst st c F n,
+  need D tst (config_of st) c <= F -> List.length (lsel D tst (config_of st) c) < n ->
+  drain_items D tst F n (evaluate1 st) c = drain_items D tst F n (fresh (config_of st)) c.
+Proof. exact evaluate_resets. Qed.
+Print Assumptions C04_evaluate_resets.
